@@ -118,6 +118,28 @@ def wireStep (st : WState) (ws : List String) : WState × String :=
         (st', s!"ok {(st'.binned.map (fun q => q.d.fin - q.d.beg)).foldl (· + ·) 0}")
       else ({ st with all := st.all ++ [p] }, "refused")
     | _, _, _, _, _, _, _ => (st, "bad-op")
+  | ["remove", i] =>
+    -- payload/bin.go Bin.Remove: the last part takes the place of the removed one
+    match parseNat? i with
+    | some i =>
+      if i < st.binned.length then
+        let n := st.binned.length
+        let b1 := match st.binned[n - 1]? with
+          | some l => (st.binned.set i l).take (n - 1)
+          | none => st.binned
+        let st' := { st with binned := b1 }
+        (st', s!"ok {(st'.binned.map (fun q => q.d.fin - q.d.beg)).foldl (· + ·) 0}")
+      else (st, "bad-op")
+    | none => (st, "bad-op")
+  | ["split", n] =>
+    -- payload/bin.go Bin.Split(n): nil unless 1 <= n < #parts; the parts from position n on are the next payload
+    match parseInt? n with
+    | some n =>
+      if n < 1 || n ≥ (st.binned.length : Int) then (st, "nil")
+      else
+        let st' := { st with binned := st.binned.drop n.toNat }
+        (st', s!"ok {(st'.binned.map (fun q => q.d.fin - q.d.beg)).foldl (· + ·) 0}")
+    | none => (st, "bad-op")
   | ["hdr"] =>
     let h := jsonHeader (st.binned.map (·.d))
     (st, s!"len={h.length} sum={cksum h}")
